@@ -626,3 +626,90 @@ T('h_profile_positive_nesting', ['C15'],
         else:
             return next()
 '''))
+
+# ------------------------------------------------------------------------------------------------ C19: R19.d the instance the report reads is the instance the routes run
+_MERGE_LOOP = '''    for mw in old:
+        if mw.unique and mw in merged:
+            if mw.reorderable:
+                continue
+            else:
+                raise ValueError('multiple inclusion of unique '
+                                 'middleware %r' % mw.name)
+        merged.append(mw)
+    return merged
+'''
+_ST_LOOKUP = '''    try:
+        stats_mw = [mw for mw in _application.middlewares
+                    if isinstance(mw, StatsMiddleware)][0]
+    except IndexError:
+        raise NotImplemented("StatsMiddleware not installed on app %r" % _application)
+    return stats_mw
+'''
+_RT_MERGE = "        self.middlewares = tuple(merge_middlewares(getattr(route, 'middlewares', []), app_mws))\n"
+B('h_merge_route_instance_takes_slot', ['C19'], 'R19.d',
+  (C, "            if mw.reorderable:\n                continue\n", "            if mw.reorderable:\n                merged[merged.index(mw)] = mw\n                continue\n"))
+B('h_merge_route_instance_moved_last', ['C19'], 'R19.d',
+  (C, "            if mw.reorderable:\n                continue\n", "            if mw.reorderable:\n                merged.remove(mw)\n                merged.append(mw)\n                continue\n"))
+B('h_merge_filters_app_level', ['C19'], 'R19.d',
+  (C, "    merged = list(new)\n" + _MERGE_LOOP, '''    merged = [mw for mw in new if not (mw.unique and mw.reorderable and mw in old)]
+    for mw in old:
+        if mw.unique and mw in merged:
+            raise ValueError('multiple inclusion of unique '
+                             'middleware %r' % mw.name)
+        merged.append(mw)
+    return merged
+'''))
+B('h_route_merge_levels_swapped', ['C19'], 'R19.d',
+  (R, _RT_MERGE, "        self.middlewares = tuple(merge_middlewares(app_mws, getattr(route, 'middlewares', [])))\n"))
+B('h_stats_lookup_falls_back_to_fresh', ['C19'], 'R19.d',
+  (STATS, _ST_LOOKUP, '''    try:
+        stats_mw = [mw for mw in _application.middlewares
+                    if isinstance(mw, StatsMiddleware)][0]
+    except IndexError:
+        stats_mw = StatsMiddleware()
+    return stats_mw
+'''))
+B('h_stats_lookup_snapshot_copy', ['C19'], 'R19.d',
+  (STATS, _ST_LOOKUP, '''    try:
+        stats_mw = [copy.copy(mw) for mw in _application.middlewares
+                    if isinstance(mw, StatsMiddleware)][0]
+    except IndexError:
+        raise NotImplemented("StatsMiddleware not installed on app %r" % _application)
+    return stats_mw
+'''), (STATS, 'import datetime\n', 'import datetime\nimport copy\n'))
+T('h_merge_named_duplicate_test', ['C19'],
+  (C, _MERGE_LOOP, '''    for mw in old:
+        already_merged = mw.unique and mw in merged
+        if not already_merged:
+            merged.append(mw)
+            continue
+        if not mw.reorderable:
+            raise ValueError('multiple inclusion of unique '
+                             'middleware %r' % mw.name)
+    return merged
+'''))
+T('h_merge_augmented_add', ['C19'], (C, "        merged.append(mw)\n    return merged\n", "        merged += [mw]\n    return merged\n"))
+T('h_merge_slice_copy', ['C19'], (C, "    merged = list(new)\n", "    outer = list(new)\n    merged = outer[:]\n"))
+T('h_route_merge_named_result', ['C19'],
+  (R, _RT_MERGE, "        route_mws = getattr(route, 'middlewares', [])\n        merged_mws = merge_middlewares(old=route_mws, new=app_mws)\n        self.middlewares = tuple(merged_mws)\n"))
+T('h_stats_lookup_named_list', ['C19'],
+  (STATS, _ST_LOOKUP, '''    try:
+        installed = [mw for mw in _application.middlewares
+                     if isinstance(mw, StatsMiddleware)]
+        return installed[0]
+    except IndexError:
+        raise NotImplemented("StatsMiddleware not installed on app %r" % _application)
+'''))
+T('h_stats_lookup_next', ['C19'],
+  (STATS, _ST_LOOKUP, '''    try:
+        stats_mw = next(mw for mw in _application.middlewares if isinstance(mw, StatsMiddleware))
+    except StopIteration:
+        raise NotImplemented("StatsMiddleware not installed on app %r" % _application)
+    return stats_mw
+'''))
+T('h_stats_lookup_loop', ['C19'],
+  (STATS, _ST_LOOKUP, '''    for mw in _application.middlewares:
+        if isinstance(mw, StatsMiddleware):
+            return mw
+    raise NotImplemented("StatsMiddleware not installed on app %r" % _application)
+'''))
